@@ -201,6 +201,113 @@ func runC02(c *fw.Ctx) {
 			gradCheck(k, in, []*ref.T{x}, []bool{true}, g, "")
 		})
 	}
+	// selections between NEIGHBOURING doubles (x and the next double, 0.1+0.2 and 0.3): different numbers, so ElMax / ElMin / MaxAlong /
+	// MinAlong are differentiable there and the whole upstream weighting goes to the larger (smaller) one
+	for i := 0; i < c.Pick(400, 8000); i++ {
+		c.Case(func(k *fw.K) {
+			r := k.Rng
+			near := func(v float64) float64 {
+				d := math.Inf(1)
+				if r.Intn(2) == 0 {
+					d = math.Inf(-1)
+				}
+				for q := 0; q <= r.Intn(3); q++ {
+					v = math.Nextafter(v, d)
+				}
+				return v
+			}
+			var in ref.Instr
+			var xs []*ref.T
+			var mask []bool
+			if r.Intn(2) == 0 {
+				shape := RandShape(r, 0, 2, 3)
+				a := Shuffled(r, Unique(r, shape, 0.2, 2.5))
+				if r.Intn(2) == 0 && len(a.Data) > 0 {
+					a.Data[0] = 0.1 + 0.2
+				}
+				b := a.Clone()
+				for i := range b.Data {
+					b.Data[i] = near(a.Data[i])
+				}
+				in = ref.Instr{Op: []string{"elmax", "elmin"}[r.Intn(2)]}
+				xs, mask = []*ref.T{a, b}, [][]bool{{true, true}, {true, false}, {false, true}}[r.Intn(3)]
+			} else {
+				shape := RandShape(r, 1, 3, 3)
+				dim := r.Intn(len(shape))
+				for shape[dim] < 2 {
+					shape[dim] = 2 + r.Intn(2)
+				}
+				x := Shuffled(r, Unique(r, shape, 0.2, 2.5))
+				// make the two largest and the two smallest of every fibre neighbours: copy element 0 of the fibre next to element 1
+				inner := 1
+				for _, d := range shape[dim+1:] {
+					inner *= d
+				}
+				n := shape[dim]
+				for o := 0; o < len(x.Data)/(n*inner); o++ {
+					for q := 0; q < inner; q++ {
+						base := x.Data[(o*n)*inner+q]
+						x.Data[(o*n+1)*inner+q] = near(base)
+						for a := 2; a < n; a++ { // the others clearly apart, on either side
+							x.Data[(o*n+a)*inner+q] = base + []float64{-3, 3}[r.Intn(2)] - float64(a)*0.01
+						}
+					}
+				}
+				in = ref.Instr{Op: []string{"maxalong", "minalong"}[r.Intn(2)], Dim: dim}
+				xs, mask = []*ref.T{x}, []bool{true}
+			}
+			y, err := ref.Apply(in, xs)
+			if err != nil {
+				k.Failf("harness: %v", err)
+				return
+			}
+			g := randG(k, y.Shape)
+			k.Case = gcase{In: in, Ops: xs, Tracked: mask, G: g}
+			k.Key("neighbouring/%s/%s", in.Op, shapeKey(xs[0].Shape))
+			k.Count("selections_between_neighbouring_doubles", 1)
+			gradCheck(k, in, xs, mask, g, "")
+		})
+	}
+	// results that OVERFLOW to +-Inf while the derivative is an ordinary number: x^2 at 1e200 (2x = 2e200), a*b at 1e200 * 1e200 (da = b),
+	// a sum of two 1e308 - the gradient does not depend on the VALUE of the result it is back-propagated from
+	for i := 0; i < c.Pick(300, 6000); i++ {
+		c.Case(func(k *fw.K) {
+			r := k.Rng
+			shape := RandShape(r, 0, 2, 3)
+			sign := func() float64 { return []float64{1, -1}[r.Intn(2)] }
+			a, b, g := ref.Zeros(shape), ref.Zeros(shape), ref.Zeros(shape)
+			variant := []string{"pow2", "mul", "add", "scale"}[r.Intn(4)]
+			for i := range a.Data {
+				a.Data[i] = sign() * 1e200 * (0.5 + r.Float64())
+				b.Data[i] = sign() * 1e200 * (0.5 + r.Float64())
+				g.Data[i] = sign() * 1e-200 * (0.5 + r.Float64())
+				if variant == "add" {
+					a.Data[i] = 1.5e308 * (0.6 + 0.4*r.Float64())
+					b.Data[i] = 1.5e308 * (0.6 + 0.4*r.Float64())
+					g.Data[i] = sign() * (0.5 + r.Float64())
+				}
+				if r.Intn(3) == 0 { // some elements stay in range
+					a.Data[i], b.Data[i] = sign()*(0.5+r.Float64()), sign()*(0.5+r.Float64())
+				}
+			}
+			var in ref.Instr
+			xs, mask := []*ref.T{a, b}, [][]bool{{true, true}, {true, false}, {false, true}}[r.Intn(3)]
+			switch variant {
+			case "pow2":
+				in, xs, mask = ref.Instr{Op: "pow", F: 2}, []*ref.T{a}, []bool{true}
+			case "scale":
+				in, xs, mask = ref.Instr{Op: "scale", F: 1e200}, []*ref.T{a}, []bool{true}
+			case "mul":
+				in = ref.Instr{Op: "mul"}
+			default:
+				in = ref.Instr{Op: "add"}
+			}
+			k.Case = gcase{In: in, Ops: xs, Tracked: mask, G: g}
+			k.Key("overflowing-result/%s/%s/%s", variant, shapeKey(shape), maskKey(mask))
+			k.Count("cases_whose_forward_result_overflows", 1)
+			gradCheck(k, in, xs, mask, g, "")
+		})
+	}
 	// Concat over MANY operands (up to 130: beyond the width of any machine word used as an operand mask), tracked operands at
 	// late positions, one operand object at several positions
 	for i := 0; i < c.Pick(60, 1200); i++ {
